@@ -8,6 +8,7 @@ import (
 	"os"
 	"path/filepath"
 	"sort"
+	"strconv"
 	"syscall"
 	"time"
 
@@ -86,4 +87,27 @@ func lastJSONDoc(b []byte) (last []byte, n int, err error) {
 		}
 		last, n = raw, n+1
 	}
+}
+
+// The commands are driven through their entry points (flag parsing included), as a user does:
+// the functions behind them are free to change their signatures.
+
+func runReport(files []string, typ, output string, every time.Duration, buckets string, extra ...string) error {
+	args := []string{"-type=" + typ, "-output=" + output}
+	if every > 0 {
+		args = append(args, "-every="+every.String())
+	}
+	args = append(args, extra...)
+	if buckets != "" {
+		args = append(args, "-buckets="+buckets)
+	}
+	return reportCmd().fn(append(args, files...))
+}
+
+func runEncode(files []string, to, output string) error {
+	return encodeCmd().fn(append([]string{"-to=" + to, "-output=" + output}, files...))
+}
+
+func runPlot(files []string, threshold int, title, output string) error {
+	return plotCmd().fn(append([]string{"-threshold=" + strconv.Itoa(threshold), "-title=" + title, "-output=" + output}, files...))
 }
